@@ -98,6 +98,25 @@ def r18_1_cycles(ctx, rid='R18.1'):
         r.check(okrem, 'the node is removed from the ancestor set on every normal exit after it was entered', g.key('ancestors-remove'),
                 g.loc(), 'a node stays in the ancestor set after its subtree was checked: a second, sibling reference to the same anchored '
                 'node (`[*a, *a]`, `{x: *a, y: *a}`) is rejected as self-referential although its expansion loads')
+        # the memo of finished nodes is written after the subtree: a node marked "checked" on entry is skipped by the memo test
+        # when an alias leads back to it from inside - before the ancestor test can see the cycle
+        done_p = g.fi.params[3] if len(g.fi.params) > 3 else None
+        if done_p is not None:
+            marks = [c for c in g.walk() if isinstance(c, ast.Call) and isinstance(c.func, ast.Attribute) and norm(c.func.value) == done_p
+                     and c.func.attr in ('add', 'update') and g.live(c)]
+            def member_of(b, setname):
+                return any(isinstance(x, ast.Compare) and len(x.ops) == 1 and isinstance(x.ops[0], (ast.In, ast.NotIn))
+                           and norm(x.comparators[0]) == setname for x in ast.walk(b.ast))
+            memo_tests = [b for b in g.cfg.nodes if b.kind == 'test' and member_of(b, done_p)]
+            anc_tests = [b for b in g.cfg.nodes if b.kind == 'test' and member_of(b, anc) and not member_of(b, done_p)]
+            anc_first = bool(anc_tests) and all(any(g.cfg.dominates(t.id, m.id) for t in anc_tests) for m in memo_tests)
+            for m_ in marks:
+                after = g.cfg.reachable(g.nid(m_))
+                early = [c for c in rec if g.nid(c) in after and g.nid(c) != g.nid(m_)]
+                r.check(not early or anc_first, 'the node is marked as checked only after its subtree was visited', g.key('memo-after-descent'),
+                        g.loc(m_), 'the node is entered into the set of finished nodes before its children are visited, and that set is '
+                        'consulted before the ancestor set: an alias from inside the node back to it (`&a [*a]`) returns at the memo test, '
+                        'the cycle is never reported and the loader recurses without bound')
         # early exits before the descent are taken only for nodes that cannot contain anything (scalars) or were checked already
         done = g.fi.params[3] if len(g.fi.params) > 3 else None
         allowed = {'isinstance(%s, yaml.ScalarNode)' % node}
